@@ -801,6 +801,23 @@ func genC17(g *Gen, tier string, emit func(op string, args ...string)) {
 		c17Emit(emit, d, o)
 		c17Emit(emit, &dictionary.Dictionary{Attributes: d.Attributes}, o) // same refs, no external VALUE
 	}
+	// 3d. external attributes whose NAME normalises to an identifier that starts with a digit, is empty, or is
+	//     spelled out: the text is refused by go/format exactly when a VALUE is declared for a name like "-1"
+	for _, name := range []string{"-1", "_1", "--9x", "1", "3Com", "-", "+", "a b", "Ok-Name", "a-1", "_"} {
+		for _, withValue := range []bool{false, true} {
+			o := dsGenOpts{pkg: "p", refs: map[string]string{name: "example.com/q"}}
+			d := &dictionary.Dictionary{Attributes: []*dictionary.Attribute{{Name: "Local-Text", OID: dictionary.OID{9}, Type: dictionary.AttributeString}}}
+			if withValue {
+				// (with a VALUE the accepted names would need a real package declaring their value type for
+				// the text to compile; only the refused spellings are run with one)
+				if name != "-1" && name != "_1" && name != "--9x" {
+					continue
+				}
+				d.Values = []*dictionary.Value{{Attribute: name, Name: "x", Number: 1}}
+			}
+			c17Emit(emit, d, o)
+		}
+	}
 	// 4. random dictionaries
 	n := 12000
 	if tier == "thorough" {
